@@ -738,6 +738,8 @@ def is_const(e):
         return is_const(e.a)
     if isinstance(e, Cast):
         return not A.is_arr(e.t) and is_const(e.e)
+    if isinstance(e, Spec):
+        return is_const(e.a) and is_const(e.b)       # hidc folds a ?? b to a when both are constants
     return False
 
 
@@ -747,6 +749,9 @@ def const_eval(e):
         return e.v
     if isinstance(e, Var):
         return e.cv
+    if isinstance(e, Spec):
+        a, b = const_eval(e.a), const_eval(e.b)
+        return None if a is None or b is None else a
     if isinstance(e, Un):
         a = const_eval(e.a)
         if a is None: return None
